@@ -414,6 +414,77 @@ static int replay(const char *file)
 	return bad ? 1 : 0;
 }
 
+/* ---- digest mode -------------------------------------------------------
+ * c06_reset --digest <module>...   one line per module and load cycle:
+ *   dig <cycle> <path> <load rc> <sample data digest> <whole image digest> <observation digest> <frames>
+ * Run in two processes whose allocator hands out differently filled memory
+ * (ASAN_OPTIONS malloc_fill_byte): every line must be identical, because
+ * nothing a context shows may depend on uninitialised heap contents. */
+static uint64_t image_digest(struct context_data *c, uint64_t *xxs)
+{
+	struct c06_image im;
+	uint64_t h = FNV_INIT;
+	int i;
+	c06_image_take(c, &im);
+	*xxs = 0;
+	for (i = 0; i < im.n; i++) {
+		const struct c06_ent *e = &im.e[i];
+		if (!strcmp(e->leaf->ctor, "rng_state"))
+			continue;
+		/* address of a constant table: differs between processes (ASLR) */
+		if (e->leaf->kind == K_PTR && (!e->compared || !strcmp(e->leaf->ctor, "m_vol_table")))
+			h = fnv1a(h, e->v, sizeof(int64_t));	/* NULL-ness only */
+		else
+			h = fnv1a(h, e->v, (size_t)e->n * sizeof(int64_t));
+		if (!strcmp(e->leaf->ctor, "m_mod_xxs"))
+			*xxs = (uint64_t)e->v[1];
+	}
+	c06_image_free(&im);
+	return h;
+}
+
+static int digest_mode(int n, char **paths)
+{
+	int i, cyc;
+	c06_mods_init(&mods, n, paths);
+	for (i = 0; i < n; i++) {
+		xmp_context C = xmp_create_context();
+		struct context_data *c = (struct context_data *)C;
+		for (cyc = 0; cyc < 2; cyc++) {
+			struct c06_obs o;
+			struct c06_op op;
+			uint64_t xxs = 0, img = 0;
+			int rc;
+			c06_obs_init(&o);
+			/* second cycle: from memory, on the context that has just released the same module */
+			if (cyc == 0) {
+				rc = xmp_load_module(C, paths[i]);
+			} else {
+				long sz = 0;
+				unsigned char *d = read_file(paths[i], &sz);
+				rc = d ? xmp_load_module_from_memory(C, d, sz) : -99;
+				free(d);
+			}
+			if (rc == 0 && c->m.mod.chn + c->smix.chn <= XMP_MAX_CHANNELS) {
+				img = image_digest(c, &xxs);
+				memset(&op, 0, sizeof(op));
+				op.kind = OP_START; op.a = 44100; op.b = 0;
+				c06_apply(C, &op, &mods, &o);
+				libxmp_set_random(&c->rng, 12345);
+				op.kind = OP_FRAMES; op.a = 40;
+				c06_apply(C, &op, &mods, &o);
+				xmp_end_player(C);
+			}
+			printf("dig %d %s %d %016llx %016llx %016llx %ld\n", cyc, paths[i], rc, (unsigned long long)xxs,
+				(unsigned long long)img, (unsigned long long)o.h, o.frames);
+			if (c->state >= XMP_STATE_LOADED)
+				xmp_release_module(C);
+		}
+		xmp_free_context(C);
+	}
+	return 0;
+}
+
 int main(int argc, char **argv)
 {
 	int ncases, maxhist, i;
@@ -421,6 +492,8 @@ int main(int argc, char **argv)
 
 	if (argc >= 3 && !strcmp(argv[1], "--replay"))
 		return replay(argv[2]);
+	if (argc >= 3 && !strcmp(argv[1], "--digest"))
+		return digest_mode(argc - 2, argv + 2);
 	if (argc < 5) {
 		fprintf(stderr, "usage: c06_reset <seed> <ncases> <maxhist> <module>...\n");
 		return 2;
